@@ -136,6 +136,33 @@ WithinUlp(M, E10, b) ==
   /\ CmpDecBin(M, E10, IF N!IsZero(d.m) THEN << >> ELSE N!Sub(d.m, << 1 >>), d.e) >= 0
   /\ CmpDecBin(M, E10, N!Add(d.m, << 1 >>), d.e) <= 0
 
+\* ---- arithmetic on doubles, decided only where the exact result is itself a double ----
+\* (IEEE-754 then leaves no freedom: the result must be that double.)  << >> = not decided here.
+NaNBits == << 32760, 0, 0, 0 >>
+InfBits(neg) == << IF neg THEN 65520 ELSE 32752, 0, 0, 0 >>
+ZeroBits(neg) == << IF neg THEN 32768 ELSE 0, 0, 0, 0 >>
+ArithExact(op, a, b) ==
+  IF ~IsFinite(a) \/ ~IsFinite(b) THEN << >>
+  ELSE LET x == Decode(a) y == Decode(b) IN
+  CASE op = "mul" -> IF N!IsZero(x.m) \/ N!IsZero(y.m) THEN ZeroBits(x.neg # y.neg)
+                     ELSE EncodeExact(x.neg # y.neg, N!Mul(x.m, y.m), x.e + y.e)
+    [] op \in {"add", "sub"} ->
+         LET yn == IF op = "sub" THEN ~y.neg ELSE y.neg
+             e == IF x.e < y.e THEN x.e ELSE y.e
+         IN  IF N!IsZero(x.m) /\ N!IsZero(y.m) THEN ZeroBits(x.neg /\ yn)
+             ELSE IF N!IsZero(y.m) THEN a
+             ELSE IF N!IsZero(x.m) THEN (IF op = "sub" THEN [b EXCEPT ![1] = IF @ >= 32768 THEN @ - 32768 ELSE @ + 32768] ELSE b)
+             ELSE IF x.e - e > 130 \/ y.e - e > 130 THEN << >>
+             ELSE LET X == Z!Z(IF x.neg THEN -1 ELSE 1, N!Mul(x.m, PW(x.e - e)))
+                      Y == Z!Z(IF yn THEN -1 ELSE 1, N!Mul(y.m, PW(y.e - e)))
+                      S == Z!Add(X, Y)
+                  IN  IF S.s = 0 THEN ZeroBits(FALSE) ELSE EncodeExact(S.s < 0, S.m, e)
+    [] op = "div" ->
+         IF N!IsZero(y.m) THEN (IF N!IsZero(x.m) THEN NaNBits ELSE InfBits(x.neg # y.neg))
+         ELSE IF N!IsZero(x.m) THEN ZeroBits(x.neg # y.neg)
+         ELSE LET dm == N!DivMod(N!Mul(x.m, PW(64)), y.m) IN
+              IF N!IsZero(dm[2]) THEN EncodeExact(x.neg # y.neg, dm[1], x.e - y.e - 64) ELSE << >>
+
 \* the double exactly equal to the integer n (BigInt, |n| < 2^70), or << >>
 OfIntExact(n) == EncodeExact(n.s < 0, n.m, 0)
 =============================================================================
